@@ -1,8 +1,284 @@
 import CM.Lib.Wire
-/-! Driver handler for C15 (stub: not built yet). -/
-namespace CM.Drv.C15
-open CM.Wire
+import CM.Model.Safe
+import CM.Model.Challenge
+/-!
+Driver handler for C15. Every line carries the whole history (issuers, challenge table,
+present / clean-up events) followed by one request, hello or state query; the model runs
+the history from the empty state and answers; the executable specification judges the
+*implementation's* answer against the set of pending challenges (computed from the
+events alone).
 
-def handle (_args _impl : List String) : String := bad
+  http  <lm> <sp> <fd> <issuers> <chals> <hist> <node> <cfg> <dis> <method> <path> <host> … => pass | serve <body>
+  alpn  <lm> <sp> <fd> <issuers> <chals> <hist> <node> <cfg> <sni> <protos> …             => normal | fail | cert <san> <chal#> <cached>
+  state <lm> <sp> <fd> <issuers> <chals> <hist> <node>                                     => <memory keys> <token files>
+-/
+namespace CM.Drv.C15
+open CM.Wire CM.Challenge
+
+def splitList (tok : String) (sep : String) : List String :=
+  if tok = "~" then [] else tok.splitOn sep
+
+def allSome {α : Type} (l : List (Option α)) : Option (List α) :=
+  l.foldr (fun x acc => match x, acc with
+    | some a, some r => some (a :: r)
+    | _, _ => none) (some [])
+
+/-- "a:b,c:d" (hex code points) -/
+def decMap (tok : String) : Option (List (Char × Char)) :=
+  if tok = "-" then some [] else
+  allSome ((tok.splitOn ",").map (fun p => match p.splitOn ":" with
+    | [a, b] => match hexNat a, hexNat b with
+      | some x, some y => some (Char.ofNat x, Char.ofNat y)
+      | _, _ => none
+    | _ => none))
+
+def decSet (tok : String) : Option (List Char) :=
+  if tok = "-" then some [] else
+  allSome ((tok.splitOn ",").map (fun p => (hexNat p).map Char.ofNat))
+
+def asciiLower (c : Char) : Char :=
+  if CM.Safe.isUpperA c then Char.ofNat (c.toNat + 32) else c
+
+/-- the sanitiser is C11's model; lower-casing / white space / simple folding of the
+non-ASCII characters of the line come from Go as tables -/
+def mkEnv (lm : List (Char × Char)) (sp : List Char) (fd : List (Char × Char)) : Env where
+  safe := CM.Safe.safe
+    { lower := fun c => match lm.lookup c with
+        | some d => d
+        | none => asciiLower c
+      isSpace := fun c => c == ' ' || c == '\t' || c == '\n' || c == '\r' || c == Char.ofNat 11 ||
+        c == Char.ofNat 12 || sp.contains c }
+  fold := fun c => match fd.lookup c with
+    | some d => d
+    | none => asciiLower c
+
+def decOptStr (tok : String) : Option (Option Str) :=
+  if tok = "~" then some none else (decStr tok).map some
+
+def decType : String → Option CType
+  | "h" => some .http01 | "a" => some .tlsalpn01 | "d" => some .dns01 | "o" => some .other
+  | _ => none
+
+def decChal (tok : String) : Option Chal :=
+  match tok.splitOn ":" with
+  | [t, ip, ident, rev, idna, token, ka] =>
+    match decType t, decStr ident, decOptStr rev, decStr token, decStr ka with
+    | some t, some ident, some rev, some token, some ka =>
+      some { typ := t, isIP := ip = "1", ident := ident, rev := rev, idnaOK := idna = "1"
+             token := token, keyAuth := ka }
+    | _, _, _, _, _ => none
+  | _ => none
+
+def decIssuer (tok : String) : Option Issuer :=
+  match tok.splitOn ":" with
+  | [ca, t] => match decStr ca, decOptStr t with
+    | some ca, some t => some { ca := ca, test := t }
+    | _, _ => none
+  | _ => none
+
+structure RawEv where
+  isPresent : Bool
+  node : Nat
+  iss : Nat
+  test : Bool
+  chal : Nat
+
+def decEv (tok : String) : Option RawEv :=
+  match tok.splitOn ":" with
+  | [k, n, i, t, c] => match n.toNat?, i.toNat?, c.toNat? with
+    | some n, some i, some c => some { isPresent := k = "p", node := n, iss := i, test := t = "1", chal := c }
+    | _, _, _ => none
+  | _ => none
+
+structure World where
+  E : Env
+  issuers : List Issuer
+  chals : List Chal
+  evs : List Ev
+  /-- pending challenges computed from the events alone: (node, prefix, chal #) -/
+  pending : List (Nat × Str × Nat)
+
+def mkWorld (lm sp fd is ch hist : String) : Option World := do
+  let lm ← decMap lm
+  let sp ← decSet sp
+  let fd ← decMap fd
+  let issuers ← allSome ((splitList is ",").map decIssuer)
+  let chals ← allSome ((splitList ch ",").map decChal)
+  let raws ← allSome ((splitList hist ",").map decEv)
+  let evs ← allSome (raws.map (fun r => do
+    let i ← issuers[r.iss]?
+    let c ← chals[r.chal]?
+    pure (if r.isPresent then Ev.present r.node (presentPrefix i r.test) c
+          else Ev.cleanUp r.node (presentPrefix i r.test) c)))
+  let pending ← raws.foldlM (fun (acc : List (Nat × Str × Nat)) r => do
+    let i ← issuers[r.iss]?
+    let x := (r.node, presentPrefix i r.test, r.chal)
+    pure (if r.isPresent then x :: acc else acc.erase x)) []
+  pure { E := mkEnv lm sp fd, issuers := issuers, chals := chals, evs := evs, pending := pending }
+
+def cfgPrefixes (w : World) (cfg : String) : Option (List Str) := do
+  let idx ← allSome ((splitList cfg ",").map String.toNat?)
+  let is ← allSome (idx.map (fun i => w.issuers[i]?))
+  pure (searchPrefixes is)
+
+/-- pending challenges visible to `node` searching `ps`, with their table index -/
+def visible (w : World) (node : Nat) (ps : List Str) : List (Nat × Chal) :=
+  w.pending.filterMap (fun (n0, p0, ci) =>
+    if n0 = node ∨ p0 ∈ ps then (w.chals[ci]?).map (fun c => (ci, c)) else none)
+
+/-! executable specification (judges the implementation's answer) -/
+
+def specHttp (w : World) (node : Nat) (ps : List Str) (dis : Bool) (r : HttpReq) (impl : List String) : String :=
+  let vis := visible w node ps
+  match impl with
+  | ["pass"] =>
+    -- liveness half: the CA's own request for a pending visible challenge must be answered
+    if !dis && vis.any (fun (_, c) => challengeKey c == c.ident && r.method == GET && r.path == resourcePath c &&
+        r.host == c.ident) then "bad:pending-challenge-not-served" else "ok"
+  | ["serve", b] =>
+    match decStr b with
+    | none => "bad-op"
+    | some body =>
+      if dis then "bad:served-while-disabled"
+      else if r.method != GET then "bad:served-to-non-GET"
+      else if vis.any (fun (_, c) => body == c.keyAuth && r.path == resourcePath c && eqFold w.E r.host c.ident)
+      then "ok"
+      else if vis.any (fun (_, c) => body == c.keyAuth && r.path == resourcePath c) then "bad:served-to-other-host"
+      else if vis.any (fun (_, c) => body == c.keyAuth) then "bad:served-on-other-path"
+      else if w.chals.any (fun c => body == c.keyAuth) then "bad:served-challenge-not-pending-here"
+      else "bad:served-unknown-body"
+  | _ => "bad-op"
+
+def specAlpn (w : World) (node : Nat) (ps : List Str) (h : Hello) (impl : List String) : String :=
+  let vis := visible w node ps
+  let branch := h.sni ≠ [] ∧ h.protos = [acmeTLS1]
+  let mine := vis.any (fun (_, c) => h.sni == challengeKey c && c.idnaOK)
+  match impl with
+  | ["normal"] => if branch ∧ mine then "bad:pending-challenge-not-served" else "ok"
+  | ["fail"] =>
+    if ¬ branch then "bad:ordinary-hello-not-on-normal-path"
+    else if mine then "bad:pending-challenge-not-served" else "ok"
+  | ["cert", san, idx, _] =>
+    if h.protos ≠ [acmeTLS1] then "bad:challenge-cert-for-other-alpn"
+    else if h.sni = [] then "bad:challenge-cert-without-sni"
+    else match idx.toNat?, decStr san with
+      | some i, some san =>
+        match vis.find? (fun (ci, _) => ci == i) with
+        | some (_, c) =>
+          if !(eqFold w.E (challengeKey c) h.sni) then "bad:challenge-cert-for-other-name"
+          else if san != c.ident then "bad:challenge-cert-san"
+          else "ok"
+        | none => "bad:challenge-cert-not-pending-here"
+      | _, _ => "bad:challenge-cert-unknown-key-authorization"
+  | _ => "bad-op"
+
+def showHttp : HttpResp → String
+  | .pass => "pass"
+  | .serve b => "serve " ++ encStr b
+
+def idxOf (w : World) (c : Chal) : String :=
+  match w.chals.findIdx? (· == c) with
+  | some i => toString i
+  | none => "?"
+
+def showAlpn (w : World) : AlpnResp → String
+  | .normal => "normal"
+  | .fail => "fail"
+  | .cert c d => "cert " ++ encStr c.ident ++ " " ++ idxOf w c ++ " " ++ (if d then "1" else "0")
+
+def tagLookup (w : World) (S : State) (n : Nat) (ps : List Str) (name : Str) : String :=
+  match S.mem n name with
+  | some _ => "mem"
+  | none => match ps.findSome? (fun p => S.store p (w.E.safe name)) with
+    | none => "miss"
+    | some c => if eqFold w.E (challengeKey c) name then "sto" else "sto-other-name"
+
+def sufHttp : HttpResp → String
+  | .serve _ => ":serve"
+  | .pass => ":pass"
+
+def sufAlpn : AlpnResp → String
+  | .cert _ true => ":cached"
+  | .cert _ false => ":made"
+  | .fail => ":fail"
+  | .normal => ":normal"
+
+def sortStrs (l : List String) : List String := (l.toArray.qsort (· < ·)).toList
+
+def joinOr (l : List String) : String := if l = [] then "~" else String.intercalate "," l
+
+def handle (args impl : List String) : String :=
+  match args with
+  | "http" :: lm :: sp :: fd :: is :: ch :: hist :: node :: cfg :: dis :: m :: path :: host :: _ =>
+    match mkWorld lm sp fd is ch hist, node.toNat?, decStr m, decStr path, decStr host with
+    | some w, some n, some m, some path, some host =>
+      match cfgPrefixes w cfg, run w.E State.empty w.evs with
+      | some ps, some S =>
+        let r : HttpReq := { method := m, path := path, host := host }
+        let d := dis = "1"
+        let ans := httpAnswer w.E S n ps d r
+        let tag := if d then "dis" else if m != GET then "meth"
+          else if !(basePath.isPrefixOf path) then "nopfx"
+          else tagLookup w S n ps host ++ sufHttp ans
+        reply (showHttp ans) (specHttp w n ps d r impl) tag
+      | _, _ => bad
+    | _, _, _, _, _ => bad
+  | "alpn" :: lm :: sp :: fd :: is :: ch :: hist :: node :: cfg :: sni :: protos :: _ =>
+    match mkWorld lm sp fd is ch hist, node.toNat?, decStr sni, allSome ((splitList protos ",").map decStr) with
+    | some w, some n, some sni, some protos =>
+      match cfgPrefixes w cfg, run w.E State.empty w.evs with
+      | some ps, some S =>
+        let h : Hello := { sni := sni, protos := protos }
+        let ans := alpnAnswer w.E S n ps h
+        let tag := if sni = [] then "nosni" else if protos ≠ [acmeTLS1] then "alpn:" ++ toString protos.length
+          else tagLookup w S n ps sni ++ sufAlpn ans
+        reply (showAlpn w ans) (specAlpn w n ps h impl) tag
+      | _, _ => bad
+    | _, _, _, _ => bad
+  | "solve" :: lm :: sp :: fd :: ch :: m :: path :: host :: _ =>
+    -- the exported SolveHTTPChallenge, handed one challenge by its caller
+    match decMap lm, decSet sp, decMap fd, decChal ch, decStr m, decStr path, decStr host with
+    | some lm, some sp, some fd, some c, some m, some path, some host =>
+      let E := mkEnv lm sp fd
+      let r : HttpReq := { method := m, path := path, host := host }
+      let ans : HttpResp := if solves E r c then .serve c.keyAuth else .pass
+      let spec := match impl with
+        | ["pass"] => if m == GET && path == resourcePath c && host == c.ident then "bad:pending-challenge-not-served" else "ok"
+        | ["serve", b] =>
+          if m != GET then "bad:served-to-non-GET"
+          else if path != resourcePath c then "bad:served-on-other-path"
+          else if !(eqFold E host c.ident) then "bad:served-to-other-host"
+          else if decStr b != some c.keyAuth then "bad:served-unknown-body"
+          else "ok"
+        | _ => "bad-op"
+      reply (showHttp ans) spec ("solve" ++ sufHttp ans)
+    | _, _, _, _, _, _, _ => bad
+  | ["state", lm, sp, fd, is, ch, hist, node] =>
+    match mkWorld lm sp fd is ch hist, node.toNat? with
+    | some w, some n =>
+      match run w.E State.empty w.evs with
+      | some S =>
+        -- the model's two places, listed over the keys / files the challenge table can produce
+        let keys := (w.chals.map challengeKey).eraseDups
+        let memKeys := keys.filter (fun k => (S.mem n k).isSome)
+        let pfxs := (w.issuers.flatMap (fun i => [presentPrefix i false, presentPrefix i true])).eraseDups
+        let files := pfxs.flatMap (fun p => (keys.map w.E.safe).eraseDups.filterMap (fun f =>
+          (S.store p f).map (fun _ => p ++ "/challenge_tokens/".toList ++ f ++ ".json".toList)))
+        let out := joinOr (sortStrs (memKeys.map encStr)) ++ " " ++ joinOr (sortStrs (files.map encStr))
+        -- specification: exactly the pending challenges are in the two places
+        let wantMem := (w.pending.filterMap (fun (n0, _, ci) =>
+          if n0 = n then (w.chals[ci]?).map (fun c => encStr (challengeKey c)) else none)).eraseDups
+        let wantFiles := (w.pending.filterMap (fun (_, p0, ci) => (w.chals[ci]?).map (fun c =>
+          encStr (p0 ++ "/challenge_tokens/".toList ++ w.E.safe (challengeKey c) ++ ".json".toList)))).eraseDups
+        let spec := match impl with
+          | [m, f] =>
+            if m ≠ joinOr (sortStrs wantMem) then "bad:memory-differs-from-pending"
+            else if f ≠ joinOr (sortStrs wantFiles) then "bad:token-files-differ-from-pending"
+            else "ok"
+          | _ => "bad-op"
+        reply out spec ("state:" ++ toString w.pending.length)
+      | none => bad
+    | _, _ => bad
+  | _ => bad
 
 end CM.Drv.C15
